@@ -105,9 +105,18 @@ CLAIMS['C20'] = dict(category='other',
          "other checks are limited to their arguments and ghost state. Schedules are not examined.",
     note="Supporting static fact, not a proof of the concurrency statement; libc/iostream/zlib/lzma assumed thread-compatible.",
     technique="clang AST declaration scan + dfcc assigns clauses", design_ref="6/C20")
+CLAIMS['C19'] = dict(
+    text="BlockTable<T> copy assignment on its real template instantiations (7 tables; before the fix: the implicitly defined operator= as it appears in clang's AST): "
+         "the copy holds the same entries and every index-map entry of the copy refers to the copy's own storage and to an existing entry - never to the source's, "
+         "which may be modified, cleared or destroyed afterwards (representation invariant on an arbitrary watched entry, re-established by rebuild_index with a loop "
+         "contract). CdnsBlock::operator= / CdnsBlockRead::operator= (the only route of every copy and 'move' of a block): every table and item array, preamble, statistics "
+         "and parameters are copied, the source is outside the frame, read positions of a CdnsBlockRead restart on the copy's own containers. Behaviour of the copy "
+         "afterwards is that of any table satisfying the invariant (btr.* units of C11).",
+    note=COMMON_NOTE + "std::deque/std::unordered_map are models (A7/A8); the copy *constructor* of BlockTable is not instantiated anywhere (blocks copy by assignment) "
+         "and defaulted moves rest on std::deque keeping element addresses when moved. A genuine defect was found and fixed (known_findings.txt).",
+    technique="CBMC dfcc contracts on the lowered real template instantiations of BlockTable<T> (function + loop contracts) and on CdnsBlock/CdnsBlockRead::operator=", design_ref="8, 12.6")
 NA.update({
  'C18': "property of five main() bodies (getopt, iostream, several files): no function-level contract within reach states it (DESIGN section 8)",
- 'C19': "implicitly generated copy operations of BlockTable over libstdc++ containers: no source text to put a contract on (DESIGN section 8)",
 })
 
 ALL = ['C%02d' % i for i in range(1, 21)]
